@@ -6,9 +6,16 @@ FB_EXTRA = [
     # the backward refinement proves what the forward analysis cannot: y := x; assume(x <= 0); assert(y <= 0)
     "cfg 2 2 1 mode=error fwd=1 delay=1 desc=1 fb=1 refined=0 maxref=5 nasserts=1 | B 0 assign 1 E 1 1 0 0 | B 1 assume C le E 1 1 0 0 ; assert C le E 1 1 1 0 1 | E 0 1",
     "cfg 2 2 1 mode=error fwd=1 delay=1 desc=1 fb=1 refined=1 maxref=0 nasserts=1 | B 0 assign 1 E 1 1 0 0 | B 1 assume C le E 1 1 0 0 ; assert C le E 1 1 1 0 1 | E 0 1",
-    # the same assertion in the entry block itself (not strictly dominated: stays a warning) and behind a diamond
+    # a single block: the dominator tree is empty and the 'no dominance information' branch discharges every assertion once the
+    # assumption of the entry is bottom; then a bottom block that is not the entry (b1) dominating b3 but not b4
     "cfg 1 2 0 mode=error fwd=1 delay=1 desc=1 fb=1 refined=0 maxref=5 nasserts=1 | B 0 assign 1 E 1 1 0 0 ; assume C le E 1 1 0 0 ; assert C le E 1 1 1 0 1 | E",
     "cfg 6 2 5 mode=error fwd=1 delay=1 desc=1 fb=1 refined=0 maxref=2 nasserts=2 | B 0 | B 1 assign 1 E 1 1 0 0 | B 2 assume C le E 1 1 0 0 | B 3 assert C le E 1 1 1 0 1 | B 4 assert C le E 1 1 0 -100 2 | B 5 | E 0 1 0 4 1 2 2 3 3 5 4 5",
+    # the verdicts depend on the second / third refinement round (old && new, more_refinement) and on the
+    # max_refine_iterations bound (found by search: they separate realistic edits of the loop from the code)
+    "cfg 6 3 3 mode=error fwd=0 delay=1 desc=0 fb=1 refined=0 maxref=1 nasserts=3 | B 0 assign 0 E 1 1 2 1 ; assume C eq E 1 2 2 2 ; assert C le E 1 -2 0 2 1 ; assign 1 E 0 -5 | B 1  | B 2 assume C le E 1 1 1 -4 | B 3 assume C le E 1 -1 1 5 ; assume C ne E 2 -1 1 1 2 -7 | B 4 assign 1 E 0 0 ; assign 0 E 1 1 2 5 | B 5 assign 2 E 1 2 0 0 ; assert C le E 2 -2 1 1 2 -7 2 ; assert C eq E 2 -2 0 1 1 2 3 ; arith add 1 1 k 2 | E 0 1 1 2 1 3 2 4 4 5 5 1",
+    "cfg 4 2 3 mode=error fwd=0 delay=2 desc=0 fb=1 refined=0 maxref=5 nasserts=1 | B 0 assume C lt E 2 -1 0 -2 1 5 ; arith add 1 0 k 2 | B 1 assume C le E 2 3 0 1 1 5 ; assign 1 E 1 2 0 -1 ; arith mul 0 1 v 1 ; assert C le E 1 2 1 1 1 | B 2 assume C le E 2 -3 0 -1 1 -4 ; assign 1 E 1 2 0 10 ; bit shl 1 0 k 0 | B 3  | E 0 1 0 2 1 3 2 3",
+    "cfg 2 2 1 mode=error fwd=1 delay=2 desc=1 fb=1 refined=1 maxref=1 nasserts=2 | B 0 assign 1 E 0 -7 ; assign 1 E 1 3 0 -1 ; assign 1 E 1 1 0 10 ; assert C lt E 2 2 0 1 1 5 1 | B 1 assume C ne E 1 -1 1 10 ; arith add 1 0 v 0 ; assign 0 E 1 3 1 2 ; assert C ne E 1 -1 0 1 2 | E 0 1",
+    "cfg 4 3 3 mode=error fwd=0 delay=2 desc=2 fb=1 refined=1 maxref=1 nasserts=2 | B 0 arith sub 1 2 k 7 ; assume C eq E 1 -1 1 -7 | B 1 assume C eq E 1 -2 2 10 ; arith sub 0 2 k 0 ; havoc 1 ; assert C le E 1 1 1 10 1 | B 2 assume C ne E 1 -2 2 10 ; assert C le E 2 1 0 3 1 2 2 | B 3  | E 0 1 0 2 1 3 2 3",
     # entry block with a predecessor that is unreachable from it; assertion after a loop
     "cfg 5 2 3 mode=error fwd=1 delay=1 desc=1 fb=1 refined=0 maxref=5 nasserts=1 | B 0 assign 1 E 1 1 0 0 | B 1 | B 2 arith add 0 0 k 0 | B 3 assume C le E 1 1 0 0 ; assert C le E 1 1 1 0 1 | B 4 assign 0 E 0 1 | E 0 1 1 2 2 1 1 3 4 0",
 ]
@@ -45,11 +52,15 @@ def run(rep, tier, seed):
     rep.cov["rule"] = rep.cov["rule"].replace("forward+backward analyzer verdicts checked by the concrete oracle",
                                               "forward+backward analyzer verdicts compared with the mirror model and checked by the concrete oracle")
     lines2 = FB_EXTRA + bwdcommon.gen(seed + 22, 200 if tier == "quick" else 6000, fb=True)
+    if getattr(vlib, "REPLAY", None) is not None:        # bin/check C02 --replay <file>: only the recorded input
+        if vlib.REPLAY[0] != "fwd-bwd-verdicts-oracle":
+            return
+        lines2 = [vlib.REPLAY[1]]
     hexe, err = vlib.build_harness("bwditv")
     if err:
         rep.violation("fb-build", err, False); return
     d = os.path.join(vlib.VERIF, "out", rep.prop)
-    cf = os.path.join(d, "fb-verdicts.cases")
+    cf = os.path.join(d, "fb-verdicts%s.cases" % (".replay" if getattr(vlib, "REPLAY", None) is not None else ""))
     open(cf, "w").write("\n".join(lines2) + "\n")
     impl = vlib.run_harness_resilient(hexe, [], cf, len(lines2), 900)
     # the mirror: extraction of Ana/FwdBwd.v, driver mode --fb (same line format as the harness)
